@@ -209,20 +209,29 @@ pub fn gen_pre(cap: usize, inflight_ok: bool) -> Pre {
 /// pick the ghost relation of the pre-state (which children were polled before,
 /// which need a poll) and assume I3, I4
 pub fn gen_ghost(p: &Pre, group: usize) {
+    gen_ghost_b(p, group, 0)
+}
+
+/// as `gen_ghost`, child identities start at `base`
+pub fn gen_ghost_b(p: &Pre, group: usize, base: usize) {
     let gh = g();
     let mut i = 0;
     while i < p.cap {
         if p.occ[i] {
             let polled_before = nd::flag();
+            // I3: a held child that needs a poll (pushed and never polled, or
+            // its waker was invoked since its last poll began) is queued.
+            // (Not conversely: a wake landing between the dequeue of a slot
+            // and the start of its poll leaves a queued slot whose child does
+            // not "need" a poll.)
             let needs = nd::flag();
+            nd::assume(!needs || p.queued(i), "I3");
             gh.set_fresh(group, i, !polled_before);
             gh.set_needs(group, i, needs);
             // pushed and never polled => needs a poll
             nd::assume(polled_before || needs, "ghost:fresh needs poll");
-            // I3: a held child that needs a poll is queued
-            nd::assume(!needs || p.queued(i), "I3");
             if polled_before {
-                gh.polls[i] = 1;
+                gh.polls[base + i] = 1;
             }
         }
         i += 1;
@@ -231,11 +240,12 @@ pub fn gen_ghost(p: &Pre, group: usize) {
         // I4a: the sleeping task will hear about the next wake, or was already told
         nd::assume(p.task_woken || (p.reg && p.reg_t == p.last_t), "I4a");
         if !p.task_woken {
-            // I4b: nothing it has not been told about needs a poll, except
-            // futures pushed since and enqueues still in flight
+            // I4b: a silent Pending drained the queue: every queued held child
+            // was pushed since, or sits behind an enqueue still in flight
+            // (whose completion notifies the registered task)
             let mut i = 0;
             while i < p.cap {
-                if p.occ[i] && gh.needs(group, i) {
+                if p.occ[i] && p.queued(i) {
                     nd::assume(gh.is_fresh(group, i) || p.inflight_upto(i), "I4b");
                 }
                 i += 1;
@@ -245,12 +255,17 @@ pub fn gen_ghost(p: &Pre, group: usize) {
 }
 
 pub fn build(p: &Pre, group: u8) -> FuturesUnorderedBounded<Fut> {
+    build_b(p, group, 0)
+}
+
+/// as `build`, child identities start at `base`
+pub fn build_b(p: &Pre, group: u8, base: usize) -> FuturesUnorderedBounded<Fut> {
     let gh = g();
     let mut i = 0;
     while i < p.cap {
         if p.occ[i] {
-            gh.slot_of[i] = i as u8;
-            gh.group_of[i] = group;
+            gh.slot_of[base + i] = i as u8;
+            gh.group_of[base + i] = group;
         }
         i += 1;
     }
@@ -258,18 +273,21 @@ pub fn build(p: &Pre, group: u8) -> FuturesUnorderedBounded<Fut> {
     let q = p.q;
     let f = v::fub_from_parts(
         p.cap,
-        |i| if p.occ[i] { Ok(Fut::new(i as u8)) } else { Err(p.nf[i]) },
+        |i| if p.occ[i] { Ok(Fut::new((base + i) as u8)) } else { Err(p.nf[i]) },
         p.free_head,
         p.qlen,
         &|k| q[k],
-        if p.reg { Some(&w) } else { None },
+        &w,
+        p.reg,
     );
+    // (the real list consumes a registration by a wake of the stored waker)
+    gh.task_wakes = [0; 2];
     // children that were polled before sit at their first-poll address
     let mut i = 0;
     while i < p.cap {
         if p.occ[i] && !gh.is_fresh(group as usize, i) {
             if let Some(c) = v::fub_peek(&f, i) {
-                gh.addr[i] = c as *const Fut as usize;
+                gh.addr[base + i] = c as *const Fut as usize;
             }
         }
         i += 1;
@@ -315,6 +333,10 @@ fn snap_q(s: &Snap) -> [QEntry; MAXS] {
 }
 
 /// INV on a post-state: I1, I2, I3
+pub fn snap_occ_pub(s: &Snap) -> [bool; MAXS] {
+    snap_occ(s)
+}
+
 pub fn check_inv_post(s: &Snap, group: usize, mon: u32) {
     let gh = g();
     let occ = snap_occ(s);
@@ -365,12 +387,12 @@ pub fn step_poll(c: &StepCfg) {
     }
     if c.handles {
         // retained child wakers (possibly stale: of vacant or reused slots)
+        // (always present, symbolically active: keeps their vtables constant for symex)
         let mut h = 0;
         while h < gh::NH {
-            if nd::flag() {
-                let s = nd::below(c.cap as u8) as usize;
-                gh::install_handle(h, v::fub_child_waker(&f, s), 0, s as u8);
-            }
+            let s = nd::below(c.cap as u8) as usize;
+            gh::install_handle(h, v::fub_child_waker(&f, s), 0, s as u8);
+            gh::set_handle_active(h, nd::flag());
             h += 1;
         }
     }
@@ -543,4 +565,242 @@ pub fn step_poll(c: &StepCfg) {
     }
     gh::drop_all_handles();
     core::mem::forget(f);
+}
+
+// ===================================================================== push
+
+/// Step(try_push) from an arbitrary INV pre-state
+pub fn step_push(c: &StepCfg) {
+    gh::reset();
+    let mon = c.mon;
+    let p = gen_pre(c.cap, c.inflight_ok);
+    gen_ghost(&p, 0);
+    let mut f = build(&p, 0);
+    let gh = g();
+    let id = c.cap; // identity of the pushed future
+    let t = p.last_t;
+    let pre_wakes = gh.task_wakes;
+    let pre_needs = gh.needs_poll[0];
+
+    let r = f.try_push(Fut::new(id as u8));
+
+    let s = snap(&mut f, c.cap, t);
+    let occ = snap_occ(&s);
+    match r {
+        Ok(()) => {
+            let slot = p.free_head;
+            gh.slot_of[id] = slot as u8;
+            gh.group_of[id] = 0;
+            if slot < MAXS {
+                gh.set_needs(0, slot, true);
+                gh.set_fresh(0, slot, true);
+            }
+            if mon & M_C15 != 0 {
+                vassert!(p.filled < c.cap, "C15:push accepted although the collection is full");
+                vassert!(s.filled == p.filled + 1, "C15:len not incremented by an accepted push");
+                vassert!(f.len() == p.filled + 1, "C15:len not incremented by an accepted push");
+            }
+            if mon & M_C02 != 0 {
+                vassert!(slot < c.cap && !p.occ[slot % MAXS] && occ[slot % MAXS], "C02:accepted future not stored in the free-list head slot");
+                let mut i = 0;
+                while i < c.cap {
+                    if i != slot {
+                        vassert!(occ[i] == p.occ[i], "C02:push changed the occupancy of another slot");
+                    }
+                    i += 1;
+                }
+                match v::fub_peek(&f, slot % MAXS) {
+                    Some(ch) => vassert!(ch.id as usize == id, "C02:slot holds another future than the one pushed"),
+                    None => vassert!(false, "C02:pushed future not held"),
+                }
+            }
+            if mon & M_C01 != 0 {
+                vassert!(s.queued(slot), "C01:pushed future not marked ready");
+            }
+            if mon & M_C12 != 0 {
+                // a stale queue entry of the slot is reused, never duplicated
+                vassert!(s.qlen == p.qlen + if p.queued(slot) { 0 } else { 1 }, "C12:push changed the ready queue by more than its own entry");
+            }
+            vcover!(p.queued(slot), "cover:push_reuses_stale_entry");
+            vcover!(true, "cover:push_ok");
+        }
+        Err(back) => {
+            if mon & M_C15 != 0 {
+                vassert!(p.filled == c.cap, "C15:push refused although there is room");
+                vassert!(back.id as usize == id, "C15:refused try_push returned another future");
+                vassert!(gh.drops[id] == 0, "C15:refused future was dropped");
+                vassert!(s.filled == p.filled && s.free_head == p.free_head && s.qlen == p.qlen, "C15:refused push disturbed the collection");
+                let mut i = 0;
+                while i < c.cap {
+                    vassert!(occ[i] == p.occ[i], "C15:refused push disturbed the held futures");
+                    i += 1;
+                }
+                vassert!(gh.needs_poll[0] == pre_needs, "C15:refused push disturbed the ghost");
+            }
+            vcover!(true, "cover:push_refused");
+            core::mem::forget(back);
+        }
+    }
+    check_inv_post(&s, 0, mon);
+    if mon & (M_C14 | M_C12) != 0 {
+        // (a wake in flight on the pushed slot completes - and notifies - while push spins on the slot lock)
+        vassert!(p.any_inflight() || gh.task_wakes[0] == pre_wakes[0] && gh.task_wakes[1] == pre_wakes[1], "C14:push invoked a task waker");
+        vassert!(gh.total_child_polls == 0, "C12:push polled a child");
+    }
+    if mon & (M_C15 | M_C17) != 0 {
+        vassert!(f.size_hint() == (s.filled, Some(s.filled)), "C17:size_hint differs from the number of held futures");
+        vassert!(f.is_empty() == (s.filled == 0), "C15:is_empty inconsistent");
+        vassert!(f.capacity() == c.cap, "C15:capacity changed");
+    }
+    core::mem::forget(f);
+}
+
+// ===================================================================== wake
+
+/// Step(environment invokes / clones / drops the waker of slot s) from an
+/// arbitrary INV pre-state, including stale wakers of vacant slots, and the
+/// two halves of a wake racing on another thread.
+pub fn step_wake(c: &StepCfg) {
+    gh::reset();
+    let mon = c.mon;
+    let p = gen_pre(c.cap, c.inflight_ok);
+    gen_ghost(&p, 0);
+    let mut f = build(&p, 0);
+    let gh = g();
+    let s_ = nd::below(c.cap as u8) as usize;
+    gh::install_handle(0, v::fub_child_waker(&f, s_), 0, s_ as u8);
+    let t = p.last_t;
+    let pre_wakes = gh.task_wakes;
+    let was_queued = p.queued(s_);
+    let was_inflight = p.inflight(s_);
+
+    // 0: wake_by_ref, 1: wake (by value, consumes the handle), 2: clone + drop the clone,
+    // 3: first half of a racing wake, 4: second half
+    let op = nd::below(if c.inflight_ok { 5 } else { 3 });
+    match op {
+        0 => gh::env_fire(0),
+        1 => {
+            gh::note_child_wake(0, s_ as u8);
+            let w = unsafe { gh::HANDLES[0].take() };
+            if let Some(w) = w {
+                w.wake();
+            }
+        }
+        2 => {
+            let w2 = unsafe { gh::HANDLES[0].clone() };
+            drop(w2);
+        }
+        #[cfg(futures_buffered_verif_model)]
+        3 => gh::env_begin(0),
+        #[cfg(futures_buffered_verif_model)]
+        4 => gh::env_finish(0),
+        _ => {}
+    }
+
+    let s = snap(&mut f, c.cap, t);
+    let occ = snap_occ(&s);
+    check_inv_post(&s, 0, mon);
+    let woke = op == 0 || op == 1;
+    let woken_t = gh.task_wakes[t] > pre_wakes[t];
+    if mon & M_C02 != 0 {
+        let mut i = 0;
+        while i < c.cap {
+            vassert!(occ[i] == p.occ[i], "C02:a waker call changed the held futures");
+            i += 1;
+        }
+        vassert!(s.filled == p.filled && s.free_head == p.free_head, "C02:a waker call changed the slot map");
+    }
+    if mon & M_C12 != 0 {
+        vassert!(gh.total_child_polls == 0, "C12:a waker call polled a child");
+        if woke {
+            vassert!(s.queued(s_), "C01:woken slot not queued");
+            vassert!(s.qlen == p.qlen + if was_queued { 0 } else { 1 }, "C12:repeated wake queued the slot twice");
+        } else if op == 2 {
+            vassert!(s.qlen == p.qlen, "C12:clone/drop of a waker changed the ready queue");
+        }
+    }
+    if mon & M_C14 != 0 {
+        if !woke && op != 4 && !(op == 3 && was_inflight) {
+            vassert!(gh.task_wakes[0] == pre_wakes[0] && gh.task_wakes[1] == pre_wakes[1], "C14:task woken without a child waker being invoked");
+        }
+        if woke && was_queued && !was_inflight {
+            vassert!(gh.task_wakes[0] == pre_wakes[0] && gh.task_wakes[1] == pre_wakes[1], "C14:task woken by a wake of an already queued child");
+        }
+        vassert!(gh.task_wakes[1 - t] == pre_wakes[1 - t] || (p.reg && p.reg_t == 1 - t), "C14:a task waker that is not registered was invoked");
+    }
+    if mon & M_C01 != 0 && p.sleeping {
+        // I4 preserved: the task of the last (Pending) poll learns about it
+        let told = p.task_woken || woken_t;
+        vassert!(told || s.registered, "C01:sleeping task neither woken nor still registered after a child wake");
+        if !told {
+            let mut k = 0;
+            let mut behind_inflight = false;
+            while k < c.cap {
+                if k < s.qlen {
+                    if s.q[k].inflight {
+                        behind_inflight = true;
+                    }
+                    let sl = s.q[k].slot;
+                    vassert!(
+                        behind_inflight || !occ[sl] || gh.is_fresh(0, sl),
+                        "C01:child woken while the task sleeps, task not notified"
+                    );
+                }
+                k += 1;
+            }
+        }
+        if woke && !was_queued && occ[s_] && p.reg && p.reg_t == t && !p.any_inflight() {
+            vassert!(woken_t, "C01:wake of a held, not yet queued child did not notify the registered task");
+        }
+    }
+    vcover!(woke && !was_queued && woken_t, "cover:wake_notifies");
+    vcover!(woke && was_queued, "cover:wake_coalesced");
+    vcover!(woke && !p.occ[s_], "cover:stale_wake");
+    gh::drop_all_handles();
+    core::mem::forget(f);
+}
+
+// ===================================================================== drop
+
+/// Step(drop) from an arbitrary INV pre-state, with retained wakers outliving
+/// the collection (dropped afterwards, or woken after the collection is gone)
+pub fn step_drop(c: &StepCfg) {
+    gh::reset();
+    let p = gen_pre(c.cap, false);
+    gen_ghost(&p, 0);
+    let f = build(&p, 0);
+    let gh = g();
+    let mut h = 0;
+    while h < gh::NH {
+        if c.handles {
+            let s = nd::below(c.cap as u8) as usize;
+            gh::install_handle(h, v::fub_child_waker(&f, s), 0, s as u8);
+        }
+        h += 1;
+    }
+    let pre_wakes = gh.task_wakes;
+    drop(f);
+    let mut i = 0;
+    while i < c.cap {
+        if p.occ[i] {
+            vassert!(gh.drops[i] == 1, "C06:held future not dropped exactly once with the collection");
+        }
+        i += 1;
+    }
+    vassert!(gh.task_wakes[0] == pre_wakes[0] && gh.task_wakes[1] == pre_wakes[1], "C14:dropping the collection woke a task");
+    // a wake after the collection is gone has no effect other than possibly
+    // waking the last registered task
+    if c.handles && nd::flag() {
+        gh::env_fire(0);
+        vassert!(gh.total_child_polls == 0, "C05:child polled after its collection was dropped");
+    }
+    gh::drop_all_handles();
+    let mut i = 0;
+    while i < c.cap {
+        if p.occ[i] {
+            vassert!(gh.drops[i] == 1, "C06:future dropped again by a late waker");
+        }
+        i += 1;
+    }
+    vcover!(p.filled == c.cap, "cover:drop_full");
 }
